@@ -6,12 +6,10 @@ stream files and runs the binary on each under a time and address-space limit.
 verdict per file   exit by panic (stderr has "panic:" / "goroutine ") -> C05 violation, replay = the file bytes (hex) + flags
                    no exit within TIMEOUT seconds                      -> C05 violation (hang)
                    anything else (exit 0 with or without an error message)  -> fine
-pending finding    the tool itself calls panic(err) when psi.ReadPMT returns an error (cli/parsefile.go, the loop over
-                   pat.ProgramMap()): a stream whose PMT is missing or damaged kills the tool with a stack trace.
-                   notes/findings/C05-cli.md has the input and the proposed patch.  Until it is repaired or entered in
-                   known_findings.json, panics with exactly this signature (explicit panic of an error value, innermost
-                   frame main.main) are reported as one KNOWN-FINDING line and are not counted as violations; every
-                   other panic (a runtime error anywhere, an explicit panic elsewhere) is a violation."""
+repaired finding   the tool itself called panic(err) when psi.ReadPMT returned an error (cli/parsefile.go, the loop over
+                   pat.ProgramMap()): a stream whose PMT is missing or damaged killed the tool with a stack trace
+                   (notes/findings/C05-cli.md).  Repaired in /repo commit 2253a95 and recorded as a `fixed` entry in
+                   known_findings.json; KNOWN_SIG is None, so any panic of the tool, this one included, is a violation."""
 import json, os, re, resource, shutil, subprocess, tempfile, time
 import vlib
 from gen import tslib as T
